@@ -478,20 +478,68 @@ def _free_consts(terms):
     return list(out.values())
 
 
-_SAMPLE_VALUES = [Fraction(0), Fraction(1), Fraction(1, 2), Fraction(3, 7), Fraction(2), Fraction(5, 4), Fraction(-1), Fraction(-2, 3), Fraction(1, 3), Fraction(7, 5), Fraction(3)]
+_MAGNITUDES = [Fraction(1, 2), Fraction(1, 3), Fraction(3, 7), Fraction(2, 3), Fraction(1, 5), Fraction(3, 4), Fraction(1, 7), Fraction(5, 6), Fraction(2, 7)]
 
 
-def find_counterexample(c, goal, hyps, tries=40, seed=0):
-    """ground search: fix every free constant to a small rational; a satisfiable instance of
-    assumptions /\\ path /\\ hyps /\\ not goal is a genuine countermodel"""
+def _sign_classes(c, hyps):
+    """syntactic scan of assumptions / path condition / hypotheses for bounds `v ? 0` on constants"""
+    info = {}
+
+    def note(v, kind):
+        if z3.is_const(v) and v.decl().kind() == z3.Z3_OP_UNINTERPRETED:
+            info.setdefault(v.get_id(), set()).add(kind)
+
+    for f in list(c.assumptions) + list(c.pathcond) + list(hyps):
+        g, neg = f, False
+        while z3.is_not(g):
+            g, neg = g.children()[0], not neg
+        if not (z3.is_app(g) and g.num_args() == 2):
+            continue
+        a, b = g.children()
+        k = g.decl().kind()
+        flip = False
+        if _is_zero_numeral(a):
+            a, b, flip = b, a, True
+        if not _is_zero_numeral(b):
+            continue
+        if k == z3.Z3_OP_EQ:
+            note(a, "nonzero" if neg else "zero")
+            continue
+        table = {z3.Z3_OP_GT: "pos", z3.Z3_OP_GE: "nonneg", z3.Z3_OP_LT: "neg", z3.Z3_OP_LE: "nonpos"}
+        if k not in table:
+            continue
+        kind = table[k]
+        if flip:
+            kind = {"pos": "neg", "neg": "pos", "nonneg": "nonpos", "nonpos": "nonneg"}[kind]
+        if neg:
+            kind = {"pos": "nonpos", "nonneg": "neg", "neg": "nonneg", "nonpos": "pos"}[kind]
+        note(a, kind)
+    return info
+
+
+def find_counterexample(c, goal, hyps, tries=24, seed=0):
+    """ground search: fix every free constant to a small rational that respects the sign bounds found in
+    the context; a satisfiable instance of assumptions /\ path /\ hyps /\ not goal is a genuine countermodel"""
     rnd = random.Random(seed)
     consts = _free_consts([goal, *hyps, *c.assumptions, *c.pathcond])
+    info = _sign_classes(c, hyps)
     for k in range(tries):
         fix = []
-        for i, v in enumerate(consts):
-            val = rnd.choice(_SAMPLE_VALUES) if k else Fraction(1, 2) + Fraction(i, 7)
-            if k % 3 == 1:
-                val = abs(val) / 4  # small positive values satisfy most range preconditions
+        for v in consts:
+            kinds = info.get(v.get_id(), set())
+            mag = rnd.choice(_MAGNITUDES)
+            if "zero" in kinds:
+                val = Fraction(0)
+            elif "pos" in kinds or ("nonneg" in kinds and (k % 4 != 3 or "nonzero" in kinds)):
+                val = mag
+            elif "neg" in kinds or ("nonpos" in kinds and (k % 4 != 3 or "nonzero" in kinds)):
+                val = -mag
+            elif "nonneg" in kinds or "nonpos" in kinds:
+                val = Fraction(0)
+            else:
+                val = mag if rnd.random() < 0.5 else -mag
+                if "nonzero" not in kinds and k % 6 == 5 and rnd.random() < 0.3:
+                    val = Fraction(0)
             if z3.is_int(v):
                 fix.append(v == int(val))
             else:
